@@ -5,6 +5,7 @@
 -/
 import Mathlib.LinearAlgebra.Matrix.PosDef
 import Mathlib.Algebra.Order.Star.Real
+import Mathlib.Algebra.Order.Chebyshev
 
 open Matrix
 open scoped BigOperators
@@ -77,5 +78,35 @@ theorem shrink_mono (K : Matrix (Fin n) (Fin n) ℝ) (hK : K.PosSemidef) {s s' :
   have hge : 0 ≤ e ⬝ᵥ e := by
     have := dotProduct_self_star_nonneg e; simpa using this
   linarith
+
+/-- **Ridge error bound.** If `K ⪰ λ·I` (`λ ≥ 0`) and `(K + j·I) w = r` with `j > 0`, then `(λ + j)² ‖w‖² ≤ ‖r‖²`: the
+    in-sample error `j·w` of the regularised solve is at most `j/(λ+j)·‖r‖` — proportional to the jitter. -/
+theorem ridge_error_bound (K : Matrix (Fin n) (Fin n) ℝ) {lam j : ℝ} (hK : (K - lam • (1 : Matrix (Fin n) (Fin n) ℝ)).PosSemidef)
+    (hlam : 0 ≤ lam) (hj : 0 < j) (w r : Fin n → ℝ) (hw : (K + j • (1 : Matrix (Fin n) (Fin n) ℝ)) *ᵥ w = r) :
+    (lam + j) ^ 2 * (w ⬝ᵥ w) ≤ r ⬝ᵥ r := by
+  have hq := psd_quad_nonneg hK w
+  have hKw : w ⬝ᵥ (K *ᵥ w) = w ⬝ᵥ ((K - lam • (1 : Matrix (Fin n) (Fin n) ℝ)) *ᵥ w) + lam * (w ⬝ᵥ w) := by
+    rw [Matrix.sub_mulVec, Matrix.smul_mulVec, Matrix.one_mulVec, dotProduct_sub, dotProduct_smul, smul_eq_mul]; ring
+  have hrw : r ⬝ᵥ w = w ⬝ᵥ (K *ᵥ w) + j * (w ⬝ᵥ w) := by
+    rw [← hw, Matrix.add_mulVec, Matrix.smul_mulVec, Matrix.one_mulVec, add_dotProduct, smul_dotProduct, smul_eq_mul,
+      dotProduct_comm (K *ᵥ w) w]
+  have hww : 0 ≤ w ⬝ᵥ w := by
+    have := dotProduct_self_star_nonneg w; simpa using this
+  have h1 : (lam + j) * (w ⬝ᵥ w) ≤ r ⬝ᵥ w := by rw [hrw, hKw]; nlinarith
+  have hcs : (r ⬝ᵥ w) ^ 2 ≤ (r ⬝ᵥ r) * (w ⬝ᵥ w) := by
+    simp only [dotProduct]
+    have := Finset.sum_mul_sq_le_sq_mul_sq Finset.univ r w
+    simpa [sq] using this
+  by_cases hz : w ⬝ᵥ w = 0
+  · rw [hz, mul_zero]
+    have := dotProduct_self_star_nonneg r; simpa using this
+  · have hpos : 0 < w ⬝ᵥ w := lt_of_le_of_ne hww (Ne.symm hz)
+    have h0 : 0 ≤ (lam + j) * (w ⬝ᵥ w) := by positivity
+    have h2 : ((lam + j) * (w ⬝ᵥ w)) ^ 2 ≤ (r ⬝ᵥ r) * (w ⬝ᵥ w) :=
+      le_trans (pow_le_pow_left₀ h0 h1 2) hcs
+    have h3 : (lam + j) ^ 2 * (w ⬝ᵥ w) * (w ⬝ᵥ w) ≤ (r ⬝ᵥ r) * (w ⬝ᵥ w) := by
+      have : ((lam + j) * (w ⬝ᵥ w)) ^ 2 = (lam + j) ^ 2 * (w ⬝ᵥ w) * (w ⬝ᵥ w) := by ring
+      rwa [this] at h2
+    exact le_of_mul_le_mul_right h3 hpos
 
 end Mellon.Shrink
